@@ -5,7 +5,9 @@ package pebbledb
 
 import (
 	"fmt"
+	"math"
 	"sort"
+	"strings"
 	"testing"
 
 	"github.com/BlackVectorOps/semantic_firewall/v3/internal/verifshim/vh"
@@ -44,6 +46,26 @@ func c11Readers() []c11Reader {
 		{"ScanBatch(P1,P2)", func(s *PebbleScanner, sp *storeProbes) string {
 			b := s.ScanBatch(map[string]*topology.FunctionTopology{"P1": sp.P[0], "P2": sp.P[1]})
 			return fmt.Sprintf("P1=%v P2=%v", fmtAlerts(b["P1"]), fmtAlerts(b["P2"]))
+		}},
+		// (appended: scenarios name readers by position) P3 reaches the v1 signatures through the FUZZY
+		// index only (same coarse bucket, another exact hash), so the `seen` set filled by the exact walk
+		// hides nothing of the fuzzy walk
+		{"ScanTopology(P3)", func(s *PebbleScanner, sp *storeProbes) string {
+			a, err := s.ScanTopology(sp.P[2], "P3")
+			return fmt.Sprintf("%v err=%v", fmtAlerts(a), err)
+		}},
+		{"ScanCandidates(P3)", func(s *PebbleScanner, sp *storeProbes) string {
+			c, err := s.ScanCandidates(sp.P[2])
+			var l []string
+			for _, x := range c {
+				l = append(l, sigCanon(*x))
+			}
+			sort.Strings(l)
+			return fmt.Sprintf("%v err=%v", l, err)
+		}},
+		{"ScanBatch(P3,P2)", func(s *PebbleScanner, sp *storeProbes) string {
+			b := s.ScanBatch(map[string]*topology.FunctionTopology{"P3": sp.P[2], "P2": sp.P[1]})
+			return fmt.Sprintf("P3=%v P2=%v", fmtAlerts(b["P3"]), fmtAlerts(b["P2"]))
 		}},
 	}
 }
@@ -98,6 +120,18 @@ func c11Writers() []c11Writer {
 			}}},
 		{name: "flip(L:v1->v2)", ops: []func(*PebbleScanner, *storeProbes){add("L", 2)}},
 		{name: "delete(L)", ops: []func(*PebbleScanner, *storeProbes){func(s *PebbleScanner, sp *storeProbes) { s.DeleteSignature("L") }}},
+		// the false-positive note as a writer of its own: a read-modify-write of the record that touches
+		// no index entry, racing another writer of the same ID
+		{name: "markfp(A)", ops: []func(*PebbleScanner, *storeProbes){func(s *PebbleScanner, sp *storeProbes) { s.MarkFalsePositive("A", "n") }}},
+		{name: "delete(A)", ops: []func(*PebbleScanner, *storeProbes){func(s *PebbleScanner, sp *storeProbes) { s.DeleteSignature("A") }}},
+		// an update that changes no indexed field at all: a lost update leaves records and indexes
+		// consistent, only the serial-order oracle can tell
+		{name: "relabel(A:same hashes and entropy, other name/severity)", ops: []func(*PebbleScanner, *storeProbes){
+			func(s *PebbleScanner, sp *storeProbes) {
+				a := c11SigV(sp, "A", 1)
+				a.Name, a.Severity = "A.relabelled", "LOW"
+				s.AddSignature(&a)
+			}}},
 	}
 }
 
@@ -137,7 +171,137 @@ func c11Scenarios() []c11Scenario {
 			sc = append(sc, c11Scenario{readers: []int{r}, writers: []int{w}, bound: map[string]int{"quick": 2, "thorough": -1}})
 		}
 	}
+	// MarkFalsePositive(A) against another writer of A (update with other hashes, delete, update with
+	// other index values, two updates, delete + batch re-add, rebuild, update of unindexed fields):
+	// writers only, then under a scan
+	for _, ws := range [][]int{{9, 5}, {9, 10}, {9, 6}, {9, 0}, {9, 1}, {9, 2}, {9, 11}} {
+		sc = append(sc, c11Scenario{writers: ws, bound: map[string]int{"quick": 2, "thorough": 4}})
+	}
+	for _, r := range []int{0, 3} {
+		for _, ws := range [][]int{{9, 5}, {9, 10}} {
+			sc = append(sc, c11Scenario{readers: []int{r}, writers: ws, bound: map[string]int{"quick": 1, "thorough": 3}})
+		}
+	}
+	// the probe that reaches A only through the fuzzy index
+	for _, r := range []int{4, 5, 6} {
+		for _, w := range []int{0, 1, 6} {
+			sc = append(sc, c11Scenario{readers: []int{r}, writers: []int{w}, bound: map[string]int{"quick": 2, "thorough": -1}})
+		}
+	}
 	return sc
+}
+
+// c11FinalScans: once every thread has finished the store is in ONE committed state; every scan of
+// every probe must then equal brute force over the records that state holds (reachable by exact or
+// fuzzy hash, entropy pre-filter, MatchSignature, threshold). Only the FORMAT of an index entry is
+// read from the index: an entry of the format before the packed one (the bare ID, signature L)
+// carries no entropy to pre-filter with, so the walk that reads it loads the record unfiltered (the
+// reading C07 already uses for databases of the old format).
+func c11FinalScans(s *PebbleScanner, sp *storeProbes, thr, tol float64) []string {
+	sigs := map[string]detection.Signature{}
+	oldFormat := map[string]bool{}
+	it, err := s.db.NewIter(nil)
+	if err != nil {
+		return []string{err.Error()}
+	}
+	for it.First(); it.Valid(); it.Next() {
+		k := string(it.Key())
+		switch {
+		case strings.HasPrefix(k, "sig:"):
+			var sg detection.Signature
+			if decodeSignature(it.Value(), &sg) == nil {
+				sigs[sg.ID] = sg
+			}
+		case strings.HasPrefix(k, "topo:"), strings.HasPrefix(k, "fuzzy:"):
+			if _, _, _, packed := decodeIndexValue(it.Value()); !packed {
+				oldFormat[k] = true
+			}
+		}
+	}
+	it.Close()
+	var ids []string
+	for id := range sigs {
+		ids = append(ids, id)
+	}
+	sort.Strings(ids)
+	candidates := func(tp *topology.FunctionTopology, exactOnly bool) []string {
+		th, fh := detection.GenerateTopologyHash(tp), topology.GenerateFuzzyHash(tp)
+		var out []string
+		for _, id := range ids {
+			sg := sigs[id]
+			within := math.Abs(sg.EntropyScore-tp.EntropyScore) <= effTol(sg, tol)
+			byTopo := sg.TopologyHash == th && (within || oldFormat[string(buildTopoIndexKey(sg.TopologyHash, id))])
+			byFuzzy := !exactOnly && sg.FuzzyHash != "" && sg.FuzzyHash == fh && (within || oldFormat[string(buildFuzzyIndexKey(sg.FuzzyHash, id))])
+			if byTopo || byFuzzy {
+				out = append(out, id)
+			}
+		}
+		return out
+	}
+	alerts := func(tp *topology.FunctionTopology, fn string) []string {
+		var res []detection.ScanResult
+		for _, id := range candidates(tp, false) {
+			if r := detection.MatchSignature(tp, fn, sigs[id], tol); r.Confidence >= thr {
+				res = append(res, r)
+			}
+		}
+		return fmtAlerts(res)
+	}
+	var bad []string
+	add := func(f string, a ...interface{}) { bad = append(bad, fmt.Sprintf(f, a...)) }
+	batch := map[string]*topology.FunctionTopology{}
+	for i, tp := range sp.P {
+		name := sp.names[i]
+		batch[name] = tp
+		cands, err := s.ScanCandidates(tp)
+		var g []string
+		for _, c := range cands {
+			if w, ok := sigs[c.ID]; !ok || sigCanon(w) != sigCanon(*c) {
+				add("ScanCandidates(%s) returns %s which is not a stored record", name, sigCanon(*c))
+			}
+			g = append(g, c.ID)
+		}
+		sort.Strings(g)
+		if w := candidates(tp, false); err != nil || fmt.Sprint(g) != fmt.Sprint(w) {
+			add("ScanCandidates(%s): got %v (err %v), the stored records give %v", name, g, err, w)
+		}
+		got, err := s.ScanTopology(tp, name)
+		if g, w := fmtAlerts(got), alerts(tp, name); err != nil || fmt.Sprint(g) != fmt.Sprint(w) {
+			add("ScanTopology(%s): got %v (err %v), the stored records give %v", name, g, err, w)
+		}
+		// exact mode: one alert of the highest confidence among the exact-hash candidates
+		best, bestIDs := -1.0, map[string]string{}
+		for _, id := range candidates(tp, true) {
+			if r := detection.MatchSignature(tp, name, sigs[id], tol); r.Confidence >= thr {
+				if r.Confidence > best {
+					best, bestIDs = r.Confidence, map[string]string{}
+				}
+				if r.Confidence == best {
+					bestIDs[id] = fmt.Sprint(fmtAlerts([]detection.ScanResult{r}))
+				}
+			}
+		}
+		ex, err := s.ScanTopologyExact(tp, name)
+		gotEx := "nil"
+		if ex != nil {
+			gotEx = fmt.Sprint(fmtAlerts([]detection.ScanResult{*ex}))
+		}
+		okEx := err == nil && (ex == nil) == (len(bestIDs) == 0)
+		if okEx && ex != nil {
+			okEx = bestIDs[ex.SignatureID] == gotEx
+		}
+		if !okEx {
+			add("ScanTopologyExact(%s): got %s (err %v), the stored records give one of %v", name, gotEx, err, bestIDs)
+		}
+	}
+	bres := s.ScanBatch(batch)
+	for i, tp := range sp.P {
+		name := sp.names[i]
+		if g, w := fmtAlerts(bres[name]), alerts(tp, name); fmt.Sprint(g) != fmt.Sprint(w) {
+			add("ScanBatch[%s]: got %v, the stored records give %v", name, g, w)
+		}
+	}
+	return bad
 }
 
 func c11Seed(s *PebbleScanner, sp *storeProbes) {
